@@ -25,6 +25,10 @@ import (
 type c13Sender struct {
 	tbl   map[hotstuff.Hash]*hotstuff.Block
 	given []*hotstuff.Block
+	// blocks that arrive by another path (a proposal) while the fetch for them is pending: stored
+	// from inside RequestBlock, when the store has released its lock; the fetch still answers
+	chain       *blockchain.Blockchain
+	storeDuring map[hotstuff.Hash]bool
 }
 
 func (s *c13Sender) NewView(hotstuff.ID, hotstuff.SyncInfo) error { return nil }
@@ -35,6 +39,9 @@ func (s *c13Sender) Sub([]hotstuff.ID) (core.Sender, error)       { return s, ni
 func (s *c13Sender) RequestBlock(_ context.Context, h hotstuff.Hash) (*hotstuff.Block, bool) {
 	b, ok := s.tbl[h]
 	if ok {
+		if s.storeDuring[h] && s.chain != nil {
+			s.chain.Store(b)
+		}
 		s.given = append(s.given, b)
 	}
 	return b, ok
@@ -148,6 +155,7 @@ func c13NewRun(v *verifOut, logger logging.Logger, cfg *core.RuntimeConfig, base
 	r.snd = &c13Sender{tbl: map[hotstuff.Hash]*hotstuff.Block{}}
 	r.el = eventloop.New(logger, 4096)
 	r.chain = blockchain.New(r.el, logger, r.snd)
+	r.snd.chain = r.chain
 	auth := cert.NewAuthority(cfg, r.chain, base)
 	vs, err := protocol.NewViewStates(r.chain, auth)
 	if err != nil {
@@ -515,6 +523,41 @@ func c13LongBacklog(r *c13Run, n, fork, lag int, gaps, fetchSome bool) {
 	r.Commit(chain[n+3], chain[n+3], []*hotstuff.Block{chain[n+2]}) // its parent was never stored here: a peer serves it
 }
 
+// c13InFlightCommit: commit(a4) fetches a3, which also arrives by another path while its fetch is
+// pending (both succeed); a deeper ancestor is at nobody's, so that commit fails and a3, a4 stay
+// uncommitted. Then a conflicting branch is committed past their views: a3 and a4 are abandoned and
+// must be reported once each. variant 1: the deeper ancestor turns up and the a-branch is committed
+// instead: nothing of it may be reported.
+func c13InFlightCommit(r *c13Run, variant int, forkFirst bool) {
+	g := hotstuff.GetGenesis()
+	a1 := c13Block(g.Hash(), 1, 1)
+	a2 := c13Block(a1.Hash(), 2, 2)
+	a3 := c13Block(a2.Hash(), 3, 3)
+	a4 := c13Block(a3.Hash(), 4, 4)
+	f1 := c13Block(g.Hash(), 2, 11)
+	f2 := c13Block(f1.Hash(), 5, 12)
+	f3 := c13Block(f2.Hash(), 6, 13)
+	r.know(a1, a2, a3, a4, f1, f2, f3)
+	if forkFirst {
+		r.Store(f1)
+	}
+	r.Store(a1)
+	r.snd.storeDuring = map[hotstuff.Hash]bool{a3.Hash(): true, a2.Hash(): variant == 1}
+	r.Commit(a4, a4, []*hotstuff.Block{a3}) // a3 fetched and stored concurrently; a2 nowhere: error
+	if !forkFirst {
+		r.Store(f1)
+	}
+	if variant == 1 {
+		r.Commit(a4, a4, []*hotstuff.Block{a2}) // a2 turns up (also arriving twice): a1..a4 committed
+		r.Store(f2)
+		r.Commit(f3, f3, nil) // conflicting, but nothing below view 4 is looked at again
+		return
+	}
+	r.Store(f2)
+	r.Commit(f2, f2, nil) // the f-branch wins: a1, a3, a4 abandoned, once each
+	r.Commit(f3, f3, nil)
+}
+
 func TestVerifC13(t *testing.T) {
 	v := verifNew("C13")
 	logging.SetLogLevel("error")
@@ -567,6 +610,16 @@ func TestVerifC13(t *testing.T) {
 						}
 					}
 				}
+			}
+		}
+	}
+
+	// a block arriving twice (fetch in flight + another path), then abandoned or committed
+	for variant := 0; variant < 2; variant++ {
+		for ff := 0; ff < 2; ff++ {
+			if r := c13NewRun(v, logger, cfg, base, "commit-inflight", fmt.Sprintf("variant=%d forkFirst=%d", variant, ff)); r != nil {
+				c13InFlightCommit(r, variant, ff == 1)
+				r.finish(s)
 			}
 		}
 	}
